@@ -140,7 +140,7 @@ Proof.
   pose proof (basic_plans _ _ _ HpB (not_existsb_basic _ HbT)) as HnB.
   pose proof (plans_of_length_ps _ _ _ HpB) as LpB.
   assert (TS : forall tl, tshapes (psB ++ tl) = tshapes tl) by (intros tl; rewrite tshapes_app, (no_te_tshapes _ HnB); reflexivity).
-  unfold getitem_model. fold nd. replace (nd <? 2) with false by (symmetry; apply Nat.ltb_ge; lia).
+  unfold getitem_model, getitem_front. fold nd. replace (nd <? 2) with false by (symmetry; apply Nat.ltb_ge; lia).
   rewrite Hexp. fold batch row col. rewrite HbT.
   destruct row as [i|ra rb rs|rsh rd]; destruct col as [j|ca cb cs|csh cd]; try discriminate;
     cbn [is_tensor orb andb negb variant_eqb]; cbv iota.
